@@ -9,7 +9,7 @@
 //!   (d) pvalue(score(p)) <= p for every p of the grid.
 //! (a), (c), (d) are also checked for M in {12, 16, 20}, where no exact oracle is affordable.
 
-use lightmotif::abc::Dna;
+use lightmotif::abc::Alphabet;
 use lightmotif::pwm::dist::ScoreDistribution;
 use lightmotif::pwm::ScoringMatrix;
 use serde_json::{json, Value};
@@ -21,13 +21,13 @@ use crate::exact::{self, Entry, Exact, Mat, EPS_P};
 /// Cap on the number of attainable scores used as anchors per matrix (DESIGN: "<= 4 096").
 pub const SCORE_CAP: usize = 4096;
 
-pub struct Dist {
-    pub d: ScoreDistribution<Dna>,
+pub struct Dist<A: Alphabet> {
+    pub d: ScoreDistribution<A>,
     /// one discretisation step in score units, (unscale(1000) - unscale(0)) / 1000
     pub step: f64,
 }
 
-pub fn build(pssm: &ScoringMatrix<Dna>) -> Result<Dist, String> {
+pub fn build<A: Alphabet>(pssm: &ScoringMatrix<A>) -> Result<Dist<A>, String> {
     catch(|| {
         let d = ScoreDistribution::from(pssm);
         let step = (d.unscale(1000) as f64 - d.unscale(0) as f64) / 1000.0;
@@ -38,7 +38,7 @@ pub fn build(pssm: &ScoringMatrix<Dna>) -> Result<Dist, String> {
 type Fail = (String, String);
 
 /// (a)
-pub fn check_sf(dist: &Dist) -> Vec<Fail> {
+pub fn check_sf<A: Alphabet>(dist: &Dist<A>) -> Vec<Fail> {
     let sf = dist.d.sf();
     let mut v = Vec::new();
     for i in 0..sf.len() {
@@ -57,7 +57,7 @@ pub fn check_sf(dist: &Dist) -> Vec<Fail> {
 }
 
 /// (b) and (c) for one score; `prev` is the next smaller query of the sorted grid.
-pub fn check_score(mat: &Mat, dist: &Dist, ex: Option<&Exact>, s: f32, prev: Option<f32>) -> Vec<Fail> {
+pub fn check_score<A: Alphabet>(mat: &Mat, dist: &Dist<A>, ex: Option<&Exact>, s: f32, prev: Option<f32>) -> Vec<Fail> {
     let mut v = Vec::new();
     let m = mat.width();
     let p = match catch(|| dist.d.pvalue(s)) {
@@ -103,7 +103,7 @@ pub fn check_score(mat: &Mat, dist: &Dist, ex: Option<&Exact>, s: f32, prev: Opt
 }
 
 /// (d)
-pub fn check_p(dist: &Dist, p: f64) -> Vec<Fail> {
+pub fn check_p<A: Alphabet>(dist: &Dist<A>, p: f64) -> Vec<Fail> {
     let mut v = Vec::new();
     match catch(|| {
         let t = dist.d.score(p);
@@ -146,7 +146,7 @@ pub fn score_grid(ex: &Exact, step: f64) -> Vec<f32> {
 
 /// p grid: exact tail values, arithmetic midpoints, every distinct tabulated sf value and the
 /// midpoints of adjacent ones, fixed values; restricted to (0,1).
-pub fn p_grid(ex: Option<&Exact>, dist: &Dist) -> Vec<f64> {
+pub fn p_grid<A: Alphabet>(ex: Option<&Exact>, dist: &Dist<A>) -> Vec<f64> {
     let mut q: Vec<f64> = Vec::new();
     if let Some(ex) = ex {
         let n = ex.scores.len();
@@ -170,7 +170,7 @@ pub fn p_grid(ex: Option<&Exact>, dist: &Dist) -> Vec<f64> {
     q
 }
 
-fn case_json(mat: &Mat, query: Value, dist: Option<&Dist>) -> Value {
+fn case_json<A: Alphabet>(mat: &Mat, query: Value, dist: Option<&Dist<A>>) -> Value {
     let mut v = mat.json();
     let m = v.as_object_mut().unwrap();
     m.insert("query".into(), query);
@@ -190,16 +190,26 @@ fn case_json(mat: &Mat, query: Value, dist: Option<&Dist>) -> Value {
 
 /// Run all clauses on one menu entry.
 fn run_entry(e: &Entry, with_oracle: bool, rep: &mut Report, ctx: &mut Ctx) {
-    let mat = &e.mat;
+    ctx.crumb(|| format!("C11 entry {} {}", e.index, e.mat.origin));
+    run_entry_on(&e.mat, &e.mat.scoring(), with_oracle, rep);
+    // the same distribution carried by a protein matrix (ScoreDistribution is generic over the alphabet; see
+    // Mat::scoring_protein): same grids, same oracle; matrices with an oracle only (the structural ones are wide)
+    if with_oracle {
+        if let Some(pp) = e.mat.scoring_protein() {
+            ctx.crumb(|| format!("C11 entry {} {} (protein embedding)", e.index, e.mat.origin));
+            run_entry_on(&e.mat.as_protein_embedded(), &pp, with_oracle, rep);
+        }
+    }
+}
+
+fn run_entry_on<A: Alphabet>(mat: &Mat, pssm: &ScoringMatrix<A>, with_oracle: bool, rep: &mut Report) {
     let cls = mat.class.clone();
-    let pssm = mat.scoring();
-    ctx.crumb(|| format!("C11 entry {} {}", e.index, mat.origin));
     rep.eval_distinct(true);
-    let dist = match build(&pssm) {
+    let dist = match build(pssm) {
         Ok(d) => d,
         Err(p) => {
             rep.violation(format!("C11 [{}] panic building the distribution {}", cls, panic_class(&p)), format!("ScoreDistribution::from panicked: {}", p), || {
-                case_json(mat, json!({"kind": "sf"}), None)
+                case_json::<A>(mat, json!({"kind": "sf"}), None)
             });
             return;
         }
@@ -266,6 +276,7 @@ pub fn run(ctx: &mut Ctx, rep: &mut Report) {
         "per matrix: sf() table (1 evaluation); scores: min-100, min-1, every distinct attainable score a (at most {} evenly ranked), a +- 1 step, a +- 1/2 step, max+1, max+100, +-1e7, +-1e9, +-1e12, +-f32::MAX, as f32, sorted; \
          p: exact tail values P(S >= a), arithmetic midpoints of adjacent ones, every distinct tabulated sf value and midpoints of adjacent ones, 1e-9, 1e-6, .5, .999, restricted to (0,1); \
          oracle: brute-force tail over all K'^M words, d = (M/2+1) steps, 1e-6 on probabilities; monotonicity and pvalue(score(p)) <= p exact; \
+         every matrix whose background gives the wildcard no mass is ALSO checked as a protein matrix carrying the same distribution (DNA columns at protein ranks 19, 2, 11, 6 with the DNA background counts, all other residues background 0 and copies of cells of their row, X = the DNA wildcard cell): same grids, same oracle; \
          one evaluation = one (matrix, background, query); non-trivial = min < score < max, resp. smallest tail < p < total mass",
         SCORE_CAP
     );
@@ -328,15 +339,24 @@ pub fn run(ctx: &mut Ctx, rep: &mut Report) {
 pub fn replay(_ctx: &mut Ctx, rep: &mut Report, case: &Value) {
     rep.space("replay", "replay of one recorded (matrix, background, query)");
     let mat = Mat::from_json(case);
+    if case["class"].as_str().map_or(false, |c| c.starts_with("protein-embedded")) {
+        let pp = mat.scoring_protein().expect("protein embedding of a background with wildcard mass");
+        replay_on(rep, &mat.as_protein_embedded(), &pp, case);
+    } else {
+        replay_on(rep, &mat, &mat.scoring(), case);
+    }
+}
+
+fn replay_on<A: Alphabet>(rep: &mut Report, mat: &Mat, pssm: &ScoringMatrix<A>, case: &Value) {
+    let mat = mat.clone();
     let cls = mat.class.clone();
-    let pssm = mat.scoring();
     let q = &case["query"];
     rep.eval_distinct(true);
-    let dist = match build(&pssm) {
+    let dist = match build(pssm) {
         Ok(d) => d,
         Err(p) => {
             rep.violation(format!("C11 [{}] panic building the distribution {}", cls, panic_class(&p)), format!("ScoreDistribution::from panicked: {}", p), || {
-                case_json(&mat, q.clone(), None)
+                case_json::<A>(&mat, q.clone(), None)
             });
             return;
         }
